@@ -10,6 +10,11 @@ def r_witness(root=None):
     R = Result("R-ENCAPS-W")
     root = os.path.abspath(root or F.REPO)
     src = os.path.join(F.VERIF, "witness", "src", "lib.rs")
+    # the verdicts depend only on the tree and on the witness source: computed once per tree (rustc really runs each time the
+    # tree changes), shared by the three checks that include them
+    key = F._sha_tree(root) + hashlib.sha256(open(src, "rb").read()).hexdigest()[:8]
+    tag = "repo" if root == "/repo" else "scratch" + hashlib.sha256(root.encode()).hexdigest()[:10]
+    cfile = os.path.join(F.WORK, "facts", "%s-%s-witness.txt" % (tag, key))
     tmp = tempfile.mkdtemp(prefix="wit-", dir=F.WORK if os.path.isdir(F.WORK) else None)
     try:
         os.makedirs(os.path.join(tmp, "src"))
@@ -23,8 +28,27 @@ def r_witness(root=None):
             shutil.copy(lock, os.path.join(tmp, "Cargo.lock"))
         env = dict(os.environ, CARGO_NET_OFFLINE="true", CARGO_TARGET_DIR=os.path.join(tmp, "target"))
         env.pop("RUSTC_WORKSPACE_WRAPPER", None)
-        r = subprocess.run(["cargo", "+nightly", "test", "--doc", "--offline"], cwd=tmp, env=env, stdout=subprocess.PIPE, stderr=subprocess.STDOUT, text=True)
-        out = r.stdout
+        if os.path.exists(cfile) and os.path.getsize(cfile) > 200:
+            out = open(cfile).read()
+        else:
+            import fcntl
+            os.makedirs(os.path.dirname(cfile), exist_ok=True)
+            with open(cfile + ".lock", "w") as lk:
+                fcntl.flock(lk, fcntl.LOCK_EX)
+                if os.path.exists(cfile) and os.path.getsize(cfile) > 200:
+                    out = open(cfile).read()
+                else:
+                    r = subprocess.run(["cargo", "+nightly", "test", "--doc", "--offline"], cwd=tmp, env=env, stdout=subprocess.PIPE, stderr=subprocess.STDOUT, text=True)
+                    out = r.stdout
+                    if re.search(r"^test src/lib.rs - ", out, re.M):
+                        for fn_ in os.listdir(os.path.dirname(cfile)):
+                            if fn_.startswith(tag + "-") and fn_.endswith("-witness.txt"):
+                                try:
+                                    os.remove(os.path.join(os.path.dirname(cfile), fn_))
+                                except OSError:
+                                    pass
+                        with open(cfile, "w") as fh:
+                            fh.write(out)
         tests = re.findall(r"^test src/lib.rs - (\w+) \(line (\d+)\)( - compile fail| - compile)? \.\.\. (\w+)", out, re.M)
         if not tests:
             R.fail("<witness>", "harness", "the witness crate did not build / run:\n%s" % out[-1500:])
